@@ -145,7 +145,9 @@ class IterativeTighteningSearch(Bounded, Generic[B]):
                     lb = self.initial_bounds.lower_bound
             else:
                 lb = self.initial_bounds.lower_bound
-            return Range(min(lb, self.best_match.bounds().upper_bound), self.best_match.bounds().upper_bound)
+            # the caller's initial bounds stay an upper limit, too (they are what bounds() reported before any candidate)
+            ub = min(self.best_match.bounds().upper_bound, self.initial_bounds.upper_bound)
+            return Range(min(lb, ub), ub)
 
     def _delete_node(self, node: HeapNode[B, Range]):
         self._untightened.decrease_key(node, Range(NEGATIVE_INFINITY, NEGATIVE_INFINITY))
